@@ -246,4 +246,9 @@ silent("C04", "rename-key-locals", [E(TOK, "numba_build_skip_grams", "array_mul"
 fire("C04", "merge-key-float32", "R4.6", E(COO, "merge_sum_duplicates", "result_key = np.zeros(array_len)", "result_key = np.zeros(array_len, dtype=np.float32)"), "merge buffer for the cell keys narrowed to float32")
 silent("C04", "merge-key-float64-explicit", E(COO, "merge_sum_duplicates", "result_key = np.zeros(array_len)", "result_key = np.zeros(array_len, dtype=np.float64)"), "explicit float64")
 
+fire("C01", "chunk-skipped-on-data", "R1.8", E(LOT, "SinkhornVectorizer.transform", "                    col_sums = np.squeeze(np.array(raw_chunk.sum(axis=0)))\n", "                    col_sums = np.squeeze(np.array(raw_chunk.sum(axis=0)))\n                    if not np.any(col_sums > 0):\n                        continue\n"), "a chunk whose rows are all empty is skipped: its rows are missing from the result")
+silent("C01", "empty-block-skip", E(LOT, "SinkhornVectorizer.transform", "                block_end = min(n_rows, block_start + block_size)\n", "                block_end = min(n_rows, block_start + block_size)\n                if block_start == block_end:\n                    continue\n"), "skipping an empty block loses no rows")
+fire("C08", "sparse-kernel-shortcut", "R8.3", E(LOT, "lot_vectors_sparse_internal", "                current_transport_plan = transport_plan(\n                    row_distribution, reference_distribution, cost\n                )\n",
+     "                if row_vectors.shape[0] == 1:\n                    current_transport_plan = reference_distribution.reshape(1, -1) * 1.0\n                else:\n                    current_transport_plan = transport_plan(\n                        row_distribution, reference_distribution, cost\n                    )\n"), "one sibling kernel gets a special case the other does not have")
+
 VARIANTS = V
